@@ -23,6 +23,13 @@ class Boom(Exception):
     pass
 
 
+def _exc(op):
+    name = op.get("exc")
+    if not name:
+        return Boom()
+    return {"StopIteration": StopIteration, "IndexError": IndexError, "KeyError": KeyError, "GeneratorExit": GeneratorExit}[name]("from the callable")
+
+
 def cell_value(tag, line, track):
     base = {"A": 10, "B": 50}[tag]
     return (base + line * 4 + track, 1 + line, 0, (track << 8) | line, 0x100 * line + track + 1)
@@ -33,6 +40,10 @@ def op_list(lines, tracks):
     ops = [{"op": "fn", "tag": "A", "fail": None}, {"op": "fn", "tag": "B", "fail": None}]
     for k in range(len(cells)):
         ops.append({"op": "fn", "tag": "B", "fail": k})
+    # the callable may fail with ANY exception class -- also one that iteration machinery treats specially
+    for k in sorted({0, len(cells) // 2, len(cells) - 1}):
+        for exc in ("StopIteration", "IndexError", "KeyError", "GeneratorExit"):
+            ops.append({"op": "fn", "tag": "B", "fail": k, "exc": exc})
     subsets = [("none", [])] + [(f"cell{k}", [cells[k]]) for k in range(len(cells))]
     subsets.append(("row0", [c for c in cells if c[0] == 0]))
     subsets.append(("all", cells))
@@ -58,7 +69,7 @@ def apply_op(pat, grid, op, lines, tracks):
             k = count[0]
             count[0] += 1
             if op["fail"] is not None and k == op["fail"]:
-                raise Boom()
+                raise _exc(op)
             return mk(op["tag"], line, track)
 
         expect_fail = op["fail"] is not None
@@ -71,8 +82,15 @@ def apply_op(pat, grid, op, lines, tracks):
             raised = False
         except Boom:
             raised = True
-        except Exception as e:                      # an error that is NOT the callable's: the edit itself broke
-            raised = "other:" + type(e).__name__
+        except BaseException as e:
+            # the callable's own exception class (or RuntimeError wrapping a StopIteration) counts as "the callable
+            # failed"; any other error is NOT the callable's: the edit itself broke
+            if op.get("exc") and type(e).__name__ in (op["exc"], "RuntimeError"):
+                raised = True
+            elif isinstance(e, Exception):
+                raised = "other:" + type(e).__name__
+            else:
+                raise
     else:
         S = [tuple(c) for c in op["cells"]]
 
@@ -112,7 +130,12 @@ def run_history(lines, tracks, attached, hist, initial="dense"):
 
     vs = []
     case = {"shape": [lines, tracks], "attached": attached, "history": hist, "initial": initial}
-    pat = rv.Pattern(lines=lines, tracks=tracks)
+    old_tracks = None
+    if initial.startswith("reshaped"):
+        old_tracks = tracks + (1 if initial.endswith("+") else -1)
+        if old_tracks < 1:
+            return []
+    pat = rv.Pattern(lines=lines, tracks=old_tracks or tracks)
     proj = None
     if attached:
         proj = rv.Project()
@@ -144,7 +167,16 @@ def run_history(lines, tracks, attached, hist, initial="dense"):
             proj.read()
             proj.clone()
     # start from a non-empty pattern so "keeps previous content" is observable
-    if initial == "untouched":
+    if initial.startswith("reshaped"):
+        # the pattern had ANOTHER track count, was filled by a bulk edit, then re-shaped (tracks assigned, clear()):
+        # the grid the next edit meets must be the new shape, all empty
+        pass
+    if old_tracks is not None:
+        pat.set_via_fn(lambda p_, l_, t_: rv.Note(note=rv.NOTECMD(49), vel=11, module=2, ctl=0x0102, val=0x0304))
+        pat.tracks = tracks
+        pat.clear()
+        grid = [[(0, 0, 0, 0, 0) for _t in range(tracks)] for _l in range(lines)]
+    elif initial == "untouched":
         # a freshly constructed pattern whose note grid has NEVER been read or written before the first bulk
         # edit (no `.data` / `.raw_data` access by the harness either): its content is all-empty cells
         grid = [[(0, 0, 0, 0, 0) for _t in range(tracks)] for _l in range(lines)]
@@ -161,7 +193,9 @@ def run_history(lines, tracks, attached, hist, initial="dense"):
         grid = grid_of(pat)
     for i, op in enumerate(hist):
         kind = op["op"] + ("-fail" if op["fail"] is not None else "-ok")
-        key = {"op": kind, "attached": attached, "initial": initial.rstrip("03")}
+        key = {"op": kind, "attached": attached, "initial": initial.rstrip("03+-")}
+        if op.get("exc"):
+            key["exc"] = op["exc"]
         if initial == "untouched" and i > 0:
             key["initial"] = "untouched-then-edited"
         raw_before = pat.raw_data if not (initial == "untouched" and i == 0) else bytes(8 * lines * tracks)
@@ -220,7 +254,7 @@ def _task(t):
     for first in ops[first_lo:first_hi]:
         for rest in itertools.chain.from_iterable(itertools.product(ops, repeat=d) for d in range(0, depth)):
             hist = [first] + list(rest)
-            for initial in ("dense", "sparse0", "sparse3", "untouched"):
+            for initial in ("dense", "sparse0", "sparse3", "untouched") + (("reshaped+", "reshaped-") if len(hist) == 1 else ()):
                 vs = run_history(lines, tracks, attached, hist, initial)
                 r["evals"] += 1
                 C.count(r, "histories")
